@@ -290,7 +290,12 @@ def prepare_run_ctrl(multinet, ctrl_variables=None, **kwargs):
     else:
         ctrl_variables['check_each_level'] = True
 
-    ctrl_variables['errors'] = (NetCalculationNotConverged,)
+    # a diverging member net leaves run_control with its own convergence error: the time series
+    # loop has to recognise those as well, otherwise continue_on_divergence is never honoured
+    errors = [NetCalculationNotConverged]
+    for net_variables in ctrl_variables['nets'].values():
+        errors += [err for err in net_variables.get('errors', ()) if err not in errors]
+    ctrl_variables['errors'] = tuple(errors)
 
     ctrl_variables['level'], ctrl_variables['controller_order'] = \
         get_controller_order_multinet(multinet)
